@@ -78,6 +78,38 @@ def generate(tier, rng):
         # honest stream of another payload under this digest
         s2, h2 = micelib.encode(p + b'!', rs, d)
         yield f'mice.all {d} 16384 {hh} {hexs(s2)}'
+    # two decodes in one process: an honest stream first, then an altered one under the same digest (nothing remembered from the
+    # first decode may vouch for the second), with small and large records
+    for d in ('02', '03'):
+        for rs, n in ((16, 40), (1024, 2500), (2048, 3 * 2048 + 100), (4096, 4096 * 2 + 1), (1500, 1500)):
+            p = rbytes(rng, n)
+            s, h = micelib.encode(p, rs, d)
+            hh = hexs(h)
+            unit = rs + 32
+            alts = []
+            for pos in (8 + 5, 8 + rs + 32 + 5 if len(s) > 8 + rs + 40 else 8 + 1, len(s) - 1):
+                if pos < len(s):
+                    t = bytearray(s); t[pos] ^= 0x40; alts.append(bytes(t))
+            body = bytearray(s)
+            for i in range(8, len(body)):
+                if (i - 8) % unit < rs: body[i] = 0x58            # every record's data replaced, in-stream proofs kept
+            alts.append(bytes(body))
+            alts.append(s[:8] + s[8 + unit:] if len(s) > 8 + unit else s[:8])
+            for a in alts:
+                yield f'mice.twice {d} 16384 {hh} {hexs(s)} {hexs(a)}'
+                yield f'mice.twice {d} 16384 {hh} {hexs(a)} {hexs(s)}'
+            yield f'mice.twice {d} 16384 {hh} {hexs(s)} {hexs(s)}'
+    # list-valued digest headers with decoys: another algorithm whose name merely ends in / contains the MI name, duplicates, order
+    for d in ('02', '03'):
+        P, Q = rbytes(rng, 40), rbytes(rng, 40)
+        sP, hP = micelib.encode(P, 16, d)
+        sQ, hQ = micelib.encode(Q, 16, d)
+        name = hP.split(b'=', 1)[0]
+        vq, vp = hQ.split(b'=', 1)[1], hP.split(b'=', 1)[1]
+        for hdr in (b'x-' + name + b'=' + vq + b',' + hP, b'x-' + name + b'=' + vq + b', ' + hP, hP + b',x-' + name + b'=' + vq, hQ + b',' + hP, hP + b',' + hQ,
+                    b'not' + name + b'=' + vq, name + b'x=' + vq + b',' + hP, b'sha-256=' + vq + b',' + hP, hP + b';' + hQ, hP + b' ' + hQ, name + b'=' + vq + b'=' + vp):
+            for st in (sP, sQ):
+                yield f'mice.all {d} 16384 {hexs(hdr)} {hexs(st)}'
     # arbitrary streams against arbitrary digests
     for _ in range(1500 if not thorough else 60000):
         d = rng.choice(['02', '03'])
